@@ -84,7 +84,7 @@ def run_mc(ctx, pid):
     # replay a seeded sample of the exported histories on the real code
     import random
     rnd = random.Random(ctx.seed)
-    k = 120 if ctx.quick else 2000
+    k = 120 if ctx.quick else 1000
     ctx.extra["tlc_histories_exported"] = len(scen)
     if len(scen) > k:
         scen = rnd.sample(scen, k)
@@ -199,16 +199,19 @@ def binding(ctx, pid, all_rows, muts):
     muts = muts + [(_mut_cal, r"CAL\|lookup")]
     whats = []
     for mutate, want in muts:
-        what = mutate(cut)
-        if not what:
+        m = mutate(cut)
+        if not m:
             raise C.ToolError("binding demo: nothing to corrupt in the first segments (%s)" % want)
-        whats.append((what, want))
+        what, row = m
+        at = next(k for k, r in enumerate(cut) if r is row) + 1
+        whats.append((what, want, at))
     bf = ctx.path("corrupt.ndjson")
     C.write_ndjson(bf, cut)
     res = C.tlc_trace(ctx, "Trace_Passthrough", bf, timeout=600)
-    got = {v[0] for v in viols_of(res)}
-    for what, want in whats:
-        sigs = sorted(g for g in got if re.match(want, g))
+    got = viols_of(res)
+    for what, want, at in whats:
+        # the rejection must be at the corrupted event itself
+        sigs = sorted(g[0] for g in got if g[1] == at and re.match(want, g[0]))
         if not sigs:
             raise C.ToolError("binding demo failed: corrupted trace accepted (%s)" % what)
         ctx.extra.setdefault("binding_demo", []).append({"corruption": what, "rejected_with": sigs[:4]})
@@ -221,7 +224,7 @@ def _mut_cal(rows):
         if r.get("e") == "Step" and r["seg"] == last and r["host"]["st"] == "OK" and r["op"]["op"] == "lookup":
             if True:
                 r["host"]["st"] = "ENOENT"
-                return "the shadow's answer to one successful lookup replaced by ENOENT (calibration must reject)"
+                return ("the shadow's answer to one successful lookup replaced by ENOENT (calibration must reject)", r)
 
 
 def samples(ctx, all_rows, pred, n=2):
@@ -248,23 +251,24 @@ def run_c05(ctx):
         run_replay(ctx, "C05")
         return
     scen = run_mc(ctx, "C05")
-    nseg, length, chunks = (64, 40, 1) if ctx.quick else (256, 40, 3)
+    nseg, length, chunks = (64, 40, 1) if ctx.quick else (256, 40, 2)
     all_rows = run_traces(ctx, "C05", "c05", nseg, length, chunks, [s for s in scen if s.get("mode", "c05") == "c05"])
     points = coverage(ctx, "C05", all_rows)
     if not ctx.quick and len(points) < 256:
         raise C.ToolError("coverage gate: only %d of 256 configuration points" % len(points))
 
     def mut(rows):
+        gentle = {r["seg"] for r in rows if r.get("e") == "Reset" and r.get("gentle")}     # histories that stay in step with the shadow
         for r in rows:
-            if r.get("e") == "Step" and r["pt"]["st"] == "OK" and r["host"]["st"] == "OK" and r["op"]["op"] in ("mkdir", "create", "mknod") and r["pt"]["ch"]:
+            if r.get("e") == "Step" and r["seg"] in gentle and r["pt"]["st"] == "OK" and r["host"]["st"] == "OK" and r["op"]["op"] in ("mkdir", "mknod") and r["pt"]["ch"]:
                 r["pt"]["attr"]["perm"] ^= 0o022
-                return "permission bits of one created object flipped in the passthrough reply"
+                return ("permission bits of one created object flipped in the passthrough reply", r)
 
     def mut2(rows):
         for r in rows:
             if r.get("e") == "Step" and r["pt"]["st"] == "OK" and r["op"]["op"] == "write":
                 r["creds"]["euid"] = 1000
-                return "effective uid after one request logged as 1000"
+                return ("effective uid after one request logged as 1000", r)
     binding(ctx, "C05", all_rows, [(mut, r"C05\|.*\|reply\|"), (mut2, r"C05\|.*\|creds")])
     samples(ctx, all_rows, lambda r: r["op"]["op"] in ("create", "rename") and r["pt"]["st"] == "OK")
     ctx.extra["rule"] = "distinct = (operation, status, flag/mode/valid class, name kind) observed on the passthrough side; histories of %d requests x %d configuration points" % (length, len(points))
@@ -276,7 +280,7 @@ def run_c06(ctx):
         run_replay(ctx, "C06")
         return
     scen = run_mc(ctx, "C06")
-    nseg, length, chunks = (48, 40, 1) if ctx.quick else (192, 40, 3)
+    nseg, length, chunks = (48, 40, 1) if ctx.quick else (192, 40, 2)
     all_rows = run_traces(ctx, "C06", "c06", nseg, length, chunks, [s for s in scen if s.get("mode") == "c06"])
     coverage(ctx, "C06", all_rows)
     gates = {}
@@ -300,19 +304,19 @@ def run_c06(ctx):
         for r in rows:
             if r.get("e") == "Step" and r["op"].get("nk") in ("slash", "dotdot") and r["op"]["op"] != "lookup" and r["pt"]["st"] == "EINVAL":
                 r["pt"]["st"] = "ENOENT"
-                return "one gated request answered ENOENT instead of EINVAL"
+                return ("one gated request answered ENOENT instead of EINVAL", r)
 
     def mut2(rows):
         for r in rows:
             if r.get("e") == "Step" and r["pt"]["st"] == "OK" and r["op"]["op"] == "lookup" and "attr" in r["pt"]:
                 r["pt"]["attr"]["id"] = next(x for x in rows if x.get("e") == "Reset")["pt_out"][0]["id"]
-                return "one lookup reply carries the file id of an object outside the export"
+                return ("one lookup reply carries the file id of an object outside the export", r)
 
     def mut3(rows):
         for r in rows:
             if r.get("e") == "Gate" and r["nk"] == "slash" and r["op"] == "mkdir":
                 r["calls"] = ["mkdir"]
-                return "a backend call logged for a gated mkdir behind the Vfs"
+                return ("a backend call logged for a gated mkdir behind the Vfs", r)
     binding(ctx, "C06", all_rows, [(mut, r"C06\|.*\|namegate"), (mut2, r"C06\|.*\|not-contained"), (mut3, r"C06\|.*backend-touched")])
     samples(ctx, all_rows, lambda r: r["op"].get("nk") in ("slash", "dotdot") or r["op"].get("name") in ("lout_abs", "lout_dir"))
     ctx.extra["rule"] = "distinct = (operation, status, flags class, name kind); sentinel tree with absolute/relative/dangling symlinks pointing outside, hard links, special files; Vfs in front in every third history; scripted backend for 'no backend touched'"
@@ -324,7 +328,7 @@ def run_c18(ctx):
         run_replay(ctx, "C18")
         return
     scen = run_mc(ctx, "C18")
-    nseg, length, chunks = (48, 40, 1) if ctx.quick else (256, 40, 2)
+    nseg, length, chunks = (40, 40, 1) if ctx.quick else (192, 40, 2)
     all_rows = run_traces(ctx, "C18", "c18", nseg, length, chunks, [s for s in scen if s.get("mode") == "c18"])
     coverage(ctx, "C18", all_rows)
     classes = set()
@@ -344,7 +348,7 @@ def run_c18(ctx):
                 for w in r["pt"]["ch"]:
                     if w["t"] == "reg" and w["id"] in pre[r["seg"]]:
                         w["size"] += 1
-                        return "size of a pre-existing file in one logged digest row changed by a size-neutral request"
+                        return ("size of a pre-existing file in one logged digest row changed by a size-neutral request", r)
     binding(ctx, "C18", all_rows, [(mut, r"C18\|.*size-changed|C18\|.*neutral-differs")])
     samples(ctx, all_rows, lambda r: r["op"]["op"] in ("write", "fallocate") and not r["neutral"])
     ctx.extra["rule"] = "distinct = (operation, status, flags class, name kind); seal classes = (op, flags/mode/valid, plainly-neutral?, succeeded?) = %d; x {no_open}" % len(classes)
